@@ -1451,4 +1451,514 @@ theorem refused_sticky (a : Bool) (st0 : St) (s1 s2 : List Nat) (n : Ns)
   rw [run_append]
   omega
 
+/-! ## the reason handed to the handler: who passed the gate, who called the handler -/
+
+/-- task `t` has passed the gate of `n` and is still working on `n` (position classes 2…5) -/
+def past (n : Ns) (t : Task) : Bool := decide (2 ≤ cls n t)
+
+/-- the step of task `i` in state `st` executes `pre_disconnect(sid, n)`: task `i` has kind `k`, its
+    current namespace is `n`, and the step pushes `k` on the gate record of `n` -/
+def marksAt (a : Bool) (st : St) (i : Nat) (n : Ns) (k : Kind) : Prop :=
+  ∃ t, st.tasks[i]? = some t ∧ t.kind = k ∧ t.todo.head? = some n ∧
+    (step a st i).sh.marks n = k :: st.sh.marks n
+
+/-- the step of task `i` in state `st` invokes the application's disconnect handler for `n` with
+    reason `k` = the kind of task `i` -/
+def callsAt (a : Bool) (st : St) (i : Nat) (n : Ns) (k : Kind) : Prop :=
+  ∃ t, st.tasks[i]? = some t ∧ t.kind = k ∧ t.todo.head? = some n ∧
+    (step a st i).sh.calls n = k :: st.sh.calls n
+
+/-- along `sched`, some step was task `i` (of kind `k`) passing the gate of `n` -/
+def passedGate (a : Bool) (st0 : St) (sched : List Nat) (i : Nat) (n : Ns) (k : Kind) : Prop :=
+  ∃ pre, pre ++ [i] <+: sched ∧ marksAt a (run a st0 pre) i n k
+
+/-- along `sched`, some step was task `i` (of kind `k`) invoking the handler of `n`, and the same
+    task had passed the gate of `n` before that step -/
+def ranHandler (a : Bool) (st0 : St) (sched : List Nat) (i : Nat) (n : Ns) (k : Kind) : Prop :=
+  ∃ pre, pre ++ [i] <+: sched ∧ callsAt a (run a st0 pre) i n k ∧ passedGate a st0 pre i n k
+
+theorem snoc_induction {α : Type} {P : List α → Prop} (h0 : P [])
+    (hs : ∀ l x, P l → P (l ++ [x])) (l : List α) : P l := by
+  have : ∀ l : List α, P l.reverse := by
+    intro l
+    induction l with
+    | nil => exact h0
+    | cons x l ih => rw [List.reverse_cons]; exact hs _ _ ih
+  have h := this l.reverse
+  rwa [List.reverse_reverse] at h
+
+theorem run_snoc (a : Bool) (st : St) (s : List Nat) (j : Nat) :
+    run a st (s ++ [j]) = step a (run a st s) j := by
+  simp [run, List.foldl_append]
+
+theorem passedGate_mono (a : Bool) (st0 : St) (s s' : List Nat) (i : Nat) (n : Ns) (k : Kind)
+    (hp : s <+: s') (h : passedGate a st0 s i n k) : passedGate a st0 s' i n k := by
+  obtain ⟨pre, h1, h2⟩ := h
+  exact ⟨pre, h1.trans hp, h2⟩
+
+theorem ranHandler_mono (a : Bool) (st0 : St) (s s' : List Nat) (i : Nat) (n : Ns) (k : Kind)
+    (hp : s <+: s') (h : ranHandler a st0 s i n k) : ranHandler a st0 s' i n k := by
+  obtain ⟨pre, h1, h2⟩ := h
+  exact ⟨pre, h1.trans hp, h2⟩
+
+theorem past_advance (n : Ns) (t : Task) (rest : List Ns) : past n (advance t rest) = false := by
+  simp [past, cls_advance]
+
+theorem past_of_pc (n : Ns) (t : Task)
+    (h : t.pc ≠ .send ∧ t.pc ≠ .handler ∧ t.pc ≠ .cleanup) : past n t = false := by
+  obtain ⟨k, todo, pc⟩ := t
+  simp only at h
+  cases todo with
+  | nil => simp [past, cls]
+  | cons m r =>
+    by_cases hm : m = n
+    · cases pc <;> simp_all [past, cls]
+    · simp [past, cls, hm]
+
+theorem markStep_past (sh : Shared) (k : Kind) (p : Pc) (m : Ns) (rest : List Ns) (n : Ns)
+    (h : past n (markStep sh ⟨k, m :: rest, p⟩ m rest).1 = true) :
+    m = n ∧ (markStep sh ⟨k, m :: rest, p⟩ m rest).2.marks n = k :: sh.marks n := by
+  have hmn : m = n := by
+    unfold markStep at h
+    split at h
+    · by_cases hm : m = n
+      · exact hm
+      · simp [past, cls, hm] at h
+    · split at h
+      · rw [past_advance] at h; simp at h
+      · simp [past_of_pc] at h
+  refine ⟨hmn, ?_⟩
+  rcases markStep_marks sh ⟨k, m :: rest, p⟩ m rest n with hx | ⟨_, hx⟩
+  · exfalso
+    subst hmn
+    have : ((markStep sh ⟨k, m :: rest, p⟩ m rest).2.marks m).length = (sh.marks m).length + 1 := by
+      unfold markStep
+      split
+      · simp [upd]
+      · split <;> simp [upd]
+    rw [hx] at this; omega
+  · exact hx
+
+/-- a step puts its task past the gate of `n` only by executing `pre_disconnect(sid, n)` -/
+theorem stepTask_past (a : Bool) (sh : Shared) (t : Task) (n : Ns)
+    (h : past n (stepTask a sh t).1 = true) :
+    past n t = true ∨
+    (t.todo.head? = some n ∧ (stepTask a sh t).2.marks n = t.kind :: sh.marks n) := by
+  obtain ⟨k, todo, pc⟩ := t
+  cases pc with
+  | chandler =>
+    simp only [stepTask] at h
+    rw [past_of_pc n _ (chNext_ne k).2.2] at h; simp at h
+  | csend => simp only [stepTask] at h; rw [past_of_pc n _ (by simp)] at h; simp at h
+  | done =>
+    have e : stepTask a sh ⟨k, todo, .done⟩ = (⟨k, todo, .done⟩, sh) := by unfold stepTask; simp
+    rw [e] at h; exact Or.inl h
+  | raised =>
+    have e : stepTask a sh ⟨k, todo, .raised⟩ = (⟨k, todo, .raised⟩, sh) := by unfold stepTask; simp
+    rw [e] at h; exact Or.inl h
+  | check =>
+    cases todo with
+    | nil => simp only [stepTask] at h; rw [past_of_pc n _ (by simp)] at h; simp at h
+    | cons m rest =>
+      simp only [stepTask] at h ⊢
+      split at h
+      · split at h
+        · rename_i h1 h2
+          simp only [h1, h2, if_true]
+          obtain ⟨e1, e2⟩ := markStep_past sh k .check m rest n h
+          exact Or.inr ⟨by simp [e1], e2⟩
+        · rw [past_of_pc n _ (by simp)] at h; simp at h
+      · rw [past_advance] at h; simp at h
+  | mark =>
+    cases todo with
+    | nil =>
+      have e : stepTask a sh ⟨k, [], .mark⟩ = (⟨k, [], .mark⟩, sh) := by unfold stepTask; simp
+      rw [e] at h; exact Or.inl h
+    | cons m rest =>
+      simp only [stepTask] at h ⊢
+      obtain ⟨e1, e2⟩ := markStep_past sh k .mark m rest n h
+      exact Or.inr ⟨by simp [e1], e2⟩
+  | send =>
+    cases todo with
+    | nil =>
+      have e : stepTask a sh ⟨k, [], .send⟩ = (⟨k, [], .send⟩, sh) := by unfold stepTask; simp
+      rw [e] at h; exact Or.inl h
+    | cons m rest =>
+      left
+      by_cases hm : m = n
+      · subst hm; by_cases hk : k = .refuse <;> simp [past, cls, hk]
+      · simp only [stepTask] at h
+        split at h <;> simp [past, cls, hm] at h
+  | handler =>
+    cases todo with
+    | nil =>
+      have e : stepTask a sh ⟨k, [], .handler⟩ = (⟨k, [], .handler⟩, sh) := by unfold stepTask; simp
+      rw [e] at h; exact Or.inl h
+    | cons m rest =>
+      left
+      by_cases hm : m = n
+      · subst hm; simp [past, cls]
+      · simp only [stepTask] at h
+        simp [past, cls, hm] at h
+  | cleanup =>
+    cases todo with
+    | nil =>
+      have e : stepTask a sh ⟨k, [], .cleanup⟩ = (⟨k, [], .cleanup⟩, sh) := by unfold stepTask; simp
+      rw [e] at h; exact Or.inl h
+    | cons m rest =>
+      simp only [stepTask] at h
+      rw [past_advance] at h; simp at h
+
+theorem markStep_calls (sh : Shared) (t : Task) (m : Ns) (rest : List Ns) :
+    (markStep sh t m rest).2.calls = sh.calls := by
+  unfold markStep
+  split
+  · rfl
+  · split <;> rfl
+
+/-- a step changes `calls n` only by a task past the gate of `n` (at its handler pc) pushing its
+    own kind -/
+theorem stepTask_calls (a : Bool) (sh : Shared) (t : Task) (n : Ns) :
+    (stepTask a sh t).2.calls n = sh.calls n ∨
+    (t.todo.head? = some n ∧ past n t = true ∧ t.pc = .handler ∧
+      (stepTask a sh t).2.calls n = t.kind :: sh.calls n) := by
+  obtain ⟨k, todo, pc⟩ := t
+  cases pc with
+  | chandler => left; simp [stepTask]
+  | csend => left; simp [stepTask]
+  | done => left; unfold stepTask; simp
+  | raised => left; unfold stepTask; simp
+  | check =>
+    cases todo with
+    | nil => left; simp [stepTask]
+    | cons m rest =>
+      left
+      simp only [stepTask]
+      split
+      · split
+        · rw [markStep_calls]
+        · rfl
+      · rfl
+  | mark =>
+    cases todo with
+    | nil => left; unfold stepTask; simp
+    | cons m rest => left; simp only [stepTask]; rw [markStep_calls]
+  | send =>
+    cases todo with
+    | nil => left; unfold stepTask; simp
+    | cons m rest => left; simp only [stepTask]; split <;> rfl
+  | handler =>
+    cases todo with
+    | nil => left; unfold stepTask; simp
+    | cons m rest =>
+      simp only [stepTask]
+      by_cases hm : m = n
+      · subst hm; right; simp [past, cls, upd]
+      · left; simp [upd, Ne.symm hm]
+  | cleanup =>
+    cases todo with
+    | nil => left; unfold stepTask; simp
+    | cons m rest => left; simp only [stepTask]; split <;> rfl
+
+theorem step_tasks_getElem? (a : Bool) (st : St) (j i : Nat) (t' : Task)
+    (h : (step a st j).tasks[i]? = some t') :
+    (i ≠ j ∧ st.tasks[i]? = some t' ∧ True) ∨
+    (st.tasks[j]? = none ∧ st.tasks[i]? = some t') ∨
+    (i = j ∧ ∃ t, st.tasks[j]? = some t ∧ t' = (stepTask a st.sh t).1 ∧
+      (step a st j).sh = (stepTask a st.sh t).2) := by
+  unfold step at h ⊢
+  cases hj : st.tasks[j]? with
+  | none => simp only [hj] at h; exact Or.inr (Or.inl ⟨rfl, h⟩)
+  | some t =>
+    simp only [hj] at h ⊢
+    by_cases hij : i = j
+    · subst hij
+      right; right
+      refine ⟨rfl, t, rfl, ?_, rfl⟩
+      obtain ⟨hlt, _⟩ := List.getElem?_eq_some_iff.mp hj
+      simp [hlt] at h
+      exact h.symm
+    · left
+      refine ⟨hij, ?_, trivial⟩
+      rw [List.getElem?_set] at h
+      simpa [Ne.symm hij] using h
+
+/-- kinds never change and `todo` only shrinks: task `i` of any reachable state is task `i` of the
+    initial state further along -/
+theorem run_kind_todo (a : Bool) (st0 : St) (sched : List Nat) (i : Nat) (t : Task)
+    (h : (run a st0 sched).tasks[i]? = some t) :
+    ∃ t0, st0.tasks[i]? = some t0 ∧ t0.kind = t.kind ∧ ∀ n, n ∈ t.todo → n ∈ t0.todo := by
+  revert i t
+  induction sched using snoc_induction with
+  | h0 => intro i t h; exact ⟨t, h, rfl, fun _ hn => hn⟩
+  | hs s j ih =>
+    intro i t h
+    rw [run_snoc] at h
+    rcases step_tasks_getElem? a _ j i t h with ⟨_, h1, _⟩ | ⟨_, h1⟩ | ⟨hij, u, hu, ht, _⟩
+    · exact ih i t h1
+    · exact ih i t h1
+    · subst hij
+      obtain ⟨t0, g1, g2, g3⟩ := ih i u hu
+      obtain ⟨k1, k2⟩ := stepTask_kind_todo a (run a st0 s).sh u
+      refine ⟨t0, g1, ?_, ?_⟩
+      · rw [ht, k1, g2]
+      · intro n hn; rw [ht] at hn; exact g3 n (k2 n hn)
+
+/-- **Who called, who passed.**  From a state in which no task is past a gate and no handler call is
+    recorded, along ANY schedule (atomic gate or not, gate-serial or not):
+    every task that is past the gate of `n` got there by its own `pre_disconnect(sid, n)` step, and
+    every recorded handler call for `n` with reason `k` was made by a step of a task of kind `k` that
+    had passed the gate of `n` before. -/
+theorem trace_facts (a : Bool) (st0 : St) (n : Ns)
+    (hp0 : ∀ (i : Nat) (t : Task), st0.tasks[i]? = some t → past n t = false) (hc0 : st0.sh.calls n = [])
+    (sched : List Nat) :
+    (∀ (i : Nat) (t : Task), (run a st0 sched).tasks[i]? = some t → past n t = true →
+        passedGate a st0 sched i n t.kind) ∧
+    (∀ k, k ∈ (run a st0 sched).sh.calls n → ∃ i, ranHandler a st0 sched i n k) := by
+  induction sched using snoc_induction with
+  | h0 =>
+    constructor
+    · intro i t h hp; rw [hp0 i t h] at hp; simp at hp
+    · intro k hk; simp only [run, List.foldl_nil] at hk; rw [hc0] at hk; simp at hk
+  | hs s j ih =>
+    obtain ⟨ihA, ihB⟩ := ih
+    have hpre : s <+: s ++ [j] := List.prefix_append s [j]
+    constructor
+    · intro i t h hp
+      rw [run_snoc] at h
+      rcases step_tasks_getElem? a _ j i t h with ⟨_, h1, _⟩ | ⟨_, h1⟩ | ⟨hij, u, hu, ht, hsh⟩
+      · exact passedGate_mono a st0 _ _ i n _ hpre (ihA i t h1 hp)
+      · exact passedGate_mono a st0 _ _ i n _ hpre (ihA i t h1 hp)
+      · subst hij
+        have hk : t.kind = u.kind := by rw [ht]; exact (stepTask_kind_todo a _ u).1
+        rw [ht] at hp
+        rcases stepTask_past a _ u n hp with hpu | ⟨hh, hm⟩
+        · rw [hk]; exact passedGate_mono a st0 _ _ i n _ hpre (ihA i u hu hpu)
+        · refine ⟨s, List.prefix_refl _, u, hu, hk.symm, hh, ?_⟩
+          rw [hsh, hm, hk]
+    · intro k hk
+      rw [run_snoc] at hk
+      have hstep : (step a (run a st0 s) j).sh.calls n = (run a st0 s).sh.calls n ∨
+          ∃ u, (run a st0 s).tasks[j]? = some u ∧ u.todo.head? = some n ∧ past n u = true ∧
+            (step a (run a st0 s) j).sh.calls n = u.kind :: (run a st0 s).sh.calls n := by
+        unfold step
+        cases hj : (run a st0 s).tasks[j]? with
+        | none => exact Or.inl rfl
+        | some u =>
+          rcases stepTask_calls a (run a st0 s).sh u n with hx | ⟨h1, h2, _, h4⟩
+          · exact Or.inl hx
+          · exact Or.inr ⟨u, rfl, h1, h2, h4⟩
+      rcases hstep with hx | ⟨u, hu, hh, hpu, hx⟩
+      · rw [hx] at hk
+        obtain ⟨i, hi⟩ := ihB k hk
+        exact ⟨i, ranHandler_mono a st0 _ _ i n k hpre hi⟩
+      · rw [hx] at hk
+        rcases List.mem_cons.mp hk with rfl | hk
+        · exact ⟨j, s, List.prefix_refl _, ⟨u, hu, rfl, hh, hx⟩, ihA j u hu hpu⟩
+        · obtain ⟨i, hi⟩ := ihB k hk
+          exact ⟨i, ranHandler_mono a st0 _ _ i n k hpre hi⟩
+
+/-- a gate passage stays on the gate record -/
+theorem passedGate_mem_marks (a : Bool) (st0 : St) (sched : List Nat) (i : Nat) (n : Ns) (k : Kind)
+    (h : passedGate a st0 sched i n k) : k ∈ (run a st0 sched).sh.marks n := by
+  obtain ⟨pre, ⟨rest, hr⟩, t, _, _, _, hm⟩ := h
+  rw [← hr, run_append]
+  obtain ⟨l, hl⟩ := run_marks a rest (run a st0 (pre ++ [i])) n
+  rw [hl, run_snoc, hm]
+  simp
+
+/-- the passing task is a task of the initial state, of that kind, with `n` on its list -/
+theorem passedGate_origin (a : Bool) (st0 : St) (sched : List Nat) (i : Nat) (n : Ns) (k : Kind)
+    (h : passedGate a st0 sched i n k) :
+    ∃ t0, st0.tasks[i]? = some t0 ∧ t0.kind = k ∧ n ∈ t0.todo := by
+  obtain ⟨pre, _, t, ht, hk, hh, _⟩ := h
+  obtain ⟨t0, g1, g2, g3⟩ := run_kind_todo a st0 pre i t ht
+  refine ⟨t0, g1, g2.trans hk, g3 n ?_⟩
+  cases htd : t.todo with
+  | nil => simp [htd] at hh
+  | cons m r => simp [htd] at hh; simp [hh]
+
+theorem init_past (st : St) (h : Init st) (n : Ns) :
+    ∀ (i : Nat) (t : Task), st.tasks[i]? = some t → past n t = false := by
+  intro i t hi
+  apply past_of_pc
+  rcases h.pcs t (mem_of_getElem? hi) with hp | hp | hp <;> simp [hp]
+
+/-- every reason recorded for `n` names a task of the initial state that has `n` on its list, passed
+    the gate of `n` and then made the call — along any schedule, with or without an atomic gate -/
+theorem reason_provenance (a : Bool) (st0 : St) (h0 : Init st0) (sched : List Nat) (n : Ns)
+    (k : Kind) (hk : k ∈ (run a st0 sched).sh.calls n) :
+    k ∈ (run a st0 sched).sh.marks n ∧
+    ∃ i t0, st0.tasks[i]? = some t0 ∧ t0.kind = k ∧ n ∈ t0.todo ∧
+      passedGate a st0 sched i n k ∧ ranHandler a st0 sched i n k := by
+  obtain ⟨i, hr⟩ := (trace_facts a st0 n (init_past st0 h0 n) (h0.calls n) sched).2 k hk
+  have hr' := hr
+  obtain ⟨pre, hpre, _, hpg⟩ := hr'
+  have hpg' : passedGate a st0 sched i n k :=
+    passedGate_mono a st0 pre sched i n k ((List.prefix_append pre [i]).trans hpre) hpg
+  obtain ⟨t0, g1, g2, g3⟩ := passedGate_origin a st0 sched i n k hpg'
+  exact ⟨passedGate_mem_marks a st0 sched i n k hpg', i, t0, g1, g2, g3, hpg', hr⟩
+
+/-! ### with the invariant: the reason is the gate winner -/
+
+theorem calls_filter_aux (c m : List Kind) (x : Nat) (hsub : ∀ k ∈ c, k ∈ m)
+    (h : (c.length = 0 ∧ (x ≠ 0 ∨ m.length = 0 ∨ (m.length = 1 ∧ nref m = 1))) ∨
+         (c.length = 1 ∧ x = 0 ∧ m.length = 1 ∧ nref m = 0)) :
+    c = if x = 0 then m.filter (· != Kind.refuse) else [] := by
+  rcases h with ⟨hc, h⟩ | ⟨hc, hx, hm, hr⟩
+  · have : c = [] := List.eq_nil_of_length_eq_zero hc
+    subst this
+    by_cases hx : x = 0
+    · simp only [hx, if_true]
+      rcases h with h | h | ⟨h1, h2⟩
+      · exact absurd hx h
+      · rw [List.eq_nil_of_length_eq_zero h]; rfl
+      · rw [marks_refuse h1 h2]; rfl
+    · simp [hx]
+  · obtain ⟨k, hk, hmk⟩ := marks_cause hm hr
+    match c, hc with
+    | [k'], _ =>
+      have : k' ∈ m := hsub k' (by simp)
+      rw [hmk] at this
+      simp at this
+      subst this
+      rw [hmk, if_pos hx]
+      cases k' <;> simp_all
+
+/-- under the invariant, the handler calls of `n` are exactly the non-refusal part of the gate record
+    of `n`, as soon as no passing task is still on its way to the handler (`cnt st n 2 = 0`: nobody
+    between `pre_disconnect` and `_trigger_event`); before that, there is none -/
+theorem inv_calls_marks (m0 : Ns → Bool) (st : St) (hI : Inv m0 st) (n : Ns)
+    (hsub : ∀ k ∈ st.sh.calls n, k ∈ st.sh.marks n) :
+    st.sh.calls n = if cnt st n 2 = 0 then (st.sh.marks n).filter (· != Kind.refuse) else [] := by
+  apply calls_filter_aux _ _ _ hsub
+  have h := hI.phase n
+  unfold Phase ncalls at h
+  omega
+
+theorem inv_reason_winner (m0 : Ns → Bool) (st : St) (hI : Inv m0 st) (n : Ns) (k : Kind)
+    (hk : k ∈ st.sh.marks n) : st.sh.marks n = [k] :=
+  marks_single (gate_facts m0 st hI n).1 hk
+
+/-- under the invariant, given that every recorded reason is on the gate record: the calls are the
+    non-refusal part of the gate record once nobody is on the way to the handler; empty or equal to
+    the gate record; a sublist of it; and a recorded reason is not a refusal, is the only call and
+    the only gate passage -/
+theorem calls_marks_facts (m0 : Ns → Bool) (st : St) (hI : Inv m0 st) (n : Ns)
+    (hsub : ∀ k ∈ st.sh.calls n, k ∈ st.sh.marks n) :
+    (st.sh.calls n =
+        if cnt st n 2 = 0 then (st.sh.marks n).filter (· != Kind.refuse) else [])
+    ∧ (st.sh.calls n = [] ∨ st.sh.calls n = st.sh.marks n)
+    ∧ (st.sh.calls n).Sublist (st.sh.marks n)
+    ∧ (∀ k, k ∈ st.sh.calls n →
+        k ≠ Kind.refuse ∧ st.sh.calls n = [k] ∧ st.sh.marks n = [k]) := by
+  have h4 : ∀ k, k ∈ st.sh.calls n →
+      k ≠ Kind.refuse ∧ st.sh.calls n = [k] ∧ st.sh.marks n = [k] := by
+    intro k hk
+    have hm := inv_reason_winner m0 st hI n k (hsub k hk)
+    have hc : st.sh.calls n = [k] := marks_single (inv_calls_le m0 st hI n) hk
+    refine ⟨?_, hc, hm⟩
+    intro hr
+    subst hr
+    have := ((gate_facts m0 st hI n).2.2.2 (hsub _ hk)).1
+    rw [this] at hk; simp at hk
+  have h2 : st.sh.calls n = [] ∨ st.sh.calls n = st.sh.marks n := by
+    cases hc : st.sh.calls n with
+    | nil => exact Or.inl rfl
+    | cons k r =>
+      right
+      obtain ⟨_, e1, e2⟩ := h4 k (by rw [hc]; simp)
+      rw [← hc, e1, e2]
+  refine ⟨inv_calls_marks m0 st hI n hsub, h2, ?_, h4⟩
+  rcases h2 with h | h
+  · rw [h]; exact List.nil_sublist _
+  · rw [h]; exact List.Sublist.refl _
+
+/-! ### kinds that never reach the handler -/
+
+/-- a refusing CONNECT is never at the handler pc; a CONNECT being accepted only goes
+    chandler → csend → done -/
+def quietT (t : Task) : Prop :=
+  (t.kind = .refuse → t.pc ≠ .handler) ∧
+  (t.kind = .conn → t.pc = .chandler ∨ t.pc = .csend ∨ t.pc = .done)
+
+def Quiet (st : St) : Prop := ∀ t ∈ st.tasks, quietT t
+
+theorem stepTask_quiet (a : Bool) (sh : Shared) (t : Task) (h : quietT t) :
+    quietT (stepTask a sh t).1 := by
+  obtain ⟨k, todo, pc⟩ := t
+  obtain ⟨h1, h2⟩ := h
+  simp only at h1 h2
+  by_cases hr : k = .refuse
+  · subst hr
+    refine ⟨fun _ => ?_, fun hx => ?_⟩
+    · cases pc <;> cases todo <;>
+        simp [stepTask, markStep, afterMark, chNext, advance] <;> (repeat' split) <;> simp_all
+    · rw [(stepTask_kind_todo a sh _).1] at hx; simp at hx
+  · by_cases hc : k = .conn
+    · subst hc
+      refine ⟨fun hx => ?_, fun _ => ?_⟩
+      · rw [(stepTask_kind_todo a sh _).1] at hx; simp at hx
+      · rcases h2 rfl with hp | hp | hp <;> subst hp <;> simp [stepTask, chNext]
+    · refine ⟨fun hx => ?_, fun hx => ?_⟩ <;>
+        rw [(stepTask_kind_todo a sh _).1] at hx <;> simp_all
+
+theorem step_quiet (a : Bool) (st : St) (i : Nat) (h : Quiet st) : Quiet (step a st i) := by
+  unfold step
+  cases hi : st.tasks[i]? with
+  | none => exact h
+  | some t =>
+    intro u hu
+    rcases mem_set_cases hu with hu | rfl
+    · exact h u hu
+    · exact stepTask_quiet a st.sh t (h t (mem_of_getElem? hi))
+
+theorem run_quiet (a : Bool) (sched : List Nat) (st : St) (h : Quiet st) :
+    Quiet (run a st sched) := by
+  induction sched generalizing st with
+  | nil => exact h
+  | cons i r ih => simp only [run, List.foldl_cons]; exact ih _ (step_quiet a st i h)
+
+/-- CONNECTs being accepted have not run their connect handler yet (true of every `mkSt` state) -/
+def connAtStart (st : St) : Prop := ∀ t ∈ st.tasks, t.kind = .conn → t.pc = .chandler
+
+theorem init_quiet (st : St) (h : Init st) (hc : connAtStart st) : Quiet st := by
+  intro t ht
+  refine ⟨fun _ => ?_, fun hk => Or.inl (hc t ht hk)⟩
+  rcases h.pcs t ht with hp | hp | hp <;> simp [hp]
+
+theorem mkSt_connAtStart (tasks : List (Kind × List Ns)) (conn others : List Ns) :
+    connAtStart (mkSt tasks conn others) := by
+  intro t ht hk
+  simp only [mkSt, List.mem_map] at ht
+  obtain ⟨p, _, rfl⟩ := ht
+  simp only [mkTask] at hk ⊢
+  rw [hk]; rfl
+
+/-- the handler is invoked by tasks of the three terminating kinds only -/
+theorem callsAt_kind (a : Bool) (st : St) (hq : Quiet st) (i : Nat) (n : Ns) (k : Kind)
+    (h : callsAt a st i n k) : k = .api ∨ k = .clientDisc ∨ k = .lost := by
+  obtain ⟨t, hi, hk, _, hc⟩ := h
+  unfold step at hc
+  simp only [hi] at hc
+  rcases stepTask_calls a st.sh t n with hx | ⟨_, _, hp, _⟩
+  · rw [hx] at hc
+    have := congrArg List.length hc
+    simp at this
+  · obtain ⟨q1, q2⟩ := hq t (mem_of_getElem? hi)
+    rw [hk] at q1 q2
+    cases k
+    · exact Or.inl rfl
+    · exact Or.inr (Or.inl rfl)
+    · exact Or.inr (Or.inr rfl)
+    · rcases q2 rfl with h | h | h <;> rw [hp] at h <;> simp at h
+    · exact absurd hp (q1 rfl)
+
+theorem ranHandler_kind (a : Bool) (st0 : St) (h0 : Init st0) (hc : connAtStart st0)
+    (sched : List Nat) (i : Nat) (n : Ns) (k : Kind) (h : ranHandler a st0 sched i n k) :
+    k = .api ∨ k = .clientDisc ∨ k = .lost := by
+  obtain ⟨pre, _, hca, _⟩ := h
+  exact callsAt_kind a _ (run_quiet a pre st0 (init_quiet st0 h0 hc)) i n k hca
+
+
 end Sio.Sched
